@@ -32,6 +32,8 @@ REAL_STUB = {
              'reference interpreter (forked from a pristine parent; sampled '
              'cross-check against a true one-shot python process)'],
     'simulated': ['object addresses as seen by identity hashes (sim arm)',
+                  'builtins.id() of propka objects (sim arm): simulated allocator that hands dead objects\' '
+                  'addresses to later objects of the same type (fault kind id_address_reuse)',
                   'calendar date (propka.output.date)',
                   'I/O faults at io.open/builtins.open',
                   'crashes (SimCrash raised from sys.settrace line events)',
